@@ -393,3 +393,36 @@ Proof. exact tuple_join_mut_needs_component_cmp_agreement_refuted. Qed.
 Print Assumptions c03_lex_tuple_columns_are_lattices.
 Print Assumptions c03_lex_join_examples.
 Print Assumptions c03_tuple_column_over_unflipped_dual_cmp_refuted.
+
+(* ================= the per-index LATTICE engine (LatEngine/LatIndexed*.v) =================
+   Every physical index of a lattice relation keeps its own content (key -> row numbers; the key index key -> one row number); the head update looks the
+   key up in new / delta / total, joins in place and on a change re-inserts the row number into every index of `new` under the keys of the DERIVED tuple,
+   removing nothing; reads go through the item's own index, rows read at their current value, no re-test.  Under the decidable xplan_ok (no item indexes a
+   lattice column) it refines the view engine, so the lattice theorems transfer; outside it the faithful model REPRODUCES the recorded defect
+   lattice_value_column_index_stale (known class = alat_plan_ok false).  Tied to the real index fields of lattice programs by gen/lat_indexed_tie.py. *)
+From Coq Require Import List ZArith Bool Permutation.
+From AV Require Import Engine.Core Engine.Eval Engine.Validate Engine.Naive Engine.Vocab.
+From AV Require Import Engine.Strat Engine.StratFixed Engine.InterfaceAgg.
+From AV Require Import LatEngine.LatSyntax LatEngine.LatEval LatEngine.LatPlan LatEngine.LatSem LatEngine.LatBase LatEngine.LatKeys.
+From AV Require Import LatEngine.LatMain LatEngine.LatVocab LatEngine.LatExample.
+From AV Require Import LatEngine.LatAggEval LatEngine.LatAggTrans LatEngine.LatAggInv LatEngine.LatAggSem LatEngine.LatAggMain.
+From AV Require Import LatEngine.LatAggExample.
+From AV Require Import LatEngine.LatIndexedEval LatEngine.LatIndexedStore LatEngine.LatIndexedMain LatEngine.LatIndexedFinding.
+Import ListNotations.
+Theorem c03_indexed_least_fixed_point : forall (V : Type) (I : linterp V) islat lle jm shuffle swap_oracle arities P pl Rin fuel,
+  veqb_ok I -> (forall r, islat r = true -> lat_laws (lle r) (jm r)) ->
+  (forall n l x, In x (shuffle n l) <-> In x l) ->
+  arities_functional arities -> no_agg P = true -> monotone_program I islat lle P ->
+  validate arities P pl = true -> lat_plan_ok islat arities pl = true ->
+  LatMain.input_ok I islat lle arities Rin ->
+  forall (vagg : nat -> list (list V) -> list V) (ashuffle : nat -> list nat -> list nat), (forall n l x, In x (ashuffle n l) -> In x l) ->
+  forall ds : list xdecl, xplan_ok islat arities ds pl = true -> (forall r, islat r = true -> In r (map fst arities)) ->
+  forall xst : xlstate,
+  xrun_plan I vagg islat jm shuffle ashuffle swap_oracle (decls_of ds) fuel pl Rin = Some xst ->
+  let F := dbof (l_rows (xl_s xst)) in
+  (directed I islat lle F /\ closedH I islat lle P F /\ dble I islat lle (dbof Rin) F /\
+   forall J : db, directed I islat lle J -> closedH I islat lle P J -> dble I islat lle (dbof Rin) J -> dble I islat lle F J)
+  /\ forall r, islat r = true -> NoDup (map tkey (l_rows (xl_s xst) r)).
+Proof. exact @lat_indexed_run_least_fixed_point. Qed.
+
+Print Assumptions c03_indexed_least_fixed_point.
